@@ -268,14 +268,17 @@ Qed.
 
 Lemma J_after_rel s k s' :
   Jw (ctxs s) (queue s) (reg s) (clr s) PIdle ->
-  (k <> KIdle -> reg s = []) -> (k = KExit -> clr s = []) -> (k = KIdle -> clr s = []) ->
+  ((k = KClear \/ k = KExit) -> reg s = []) -> (k = KExit -> clr s = []) ->
+  ((k = KIdle \/ k = KWake) -> clr s = []) ->
   after_rel s k = Some s' -> J s'.
 Proof.
   intros HJ Hr Hc Hi H. destruct k; simpl in H.
   - inversion H; subst. split; simpl; [exact HJ|]. unfold Jp; simpl. repeat split; intros; try discriminate; auto.
     destruct H0; discriminate.
-  - eapply J_enter_clear; eauto. apply Hr. discriminate.
-  - eapply J_enter_exit; eauto. apply Hr. discriminate.
+  - eapply J_enter_clear; eauto.
+  - eapply J_enter_exit; eauto.
+  - inversion H; subst. split; simpl; [exact HJ|]. unfold Jp; simpl. repeat split; intros; try discriminate; auto.
+    destruct H0; discriminate.
 Qed.
 
 (* when the pc mentions context c, no other context is in a pc-attached position *)
@@ -378,6 +381,9 @@ Proof.
   - (* returned *) break H. split; simpl; norm_pc.
     + eapply Jw_lists; [exact HJ|..]; side; try (destruct (pc s); simpl in *; discriminate).
     + destruct (pc s); simpl in *; try discriminate. jp_tac.
+  - (* cb_wake *) break H. split; simpl; norm_pc.
+    + eapply Jw_lists; [exact HJ|..]; side; try (destruct (pc s); simpl in *; discriminate).
+    + destruct (pc s); simpl in *; try discriminate; jp_tac.
   - (* tau release *) break H. open_on. pose_loc. rewrite Heqb in *.
     eapply J_after_rel; [| | | |eassumption]; simpl; norm_pc.
     + eapply Jw_put; [exact HJ|eassumption|..]; side; try (simpl in *; congruence).
@@ -388,6 +394,12 @@ Proof.
     destruct (pc s) eqn:Ep; simpl in Heqb; try discriminate.
     destruct HP as (_ & _ & _ & HP4). rewrite (HP4 eq_refl) in *.
     eapply Jw_lists; [exact HJ|..]; side.
+  - (* wake begin *) break H. split; simpl; norm_pc.
+    + eapply Jw_lists; [exact HJ|..]; side; try (destruct (pc s); simpl in *; discriminate).
+    + destruct (pc s); simpl in *; try discriminate; jp_tac.
+  - (* wake unlock *) break H. split; simpl; norm_pc.
+    + eapply Jw_lists; [exact HJ|..]; side; try (destruct (pc s); simpl in *; discriminate).
+    + destruct (pc s); simpl in *; try discriminate; jp_tac.
 Qed.
 
 Lemma init_J : J init.
@@ -441,3 +453,46 @@ Proof.
   intros c x H. destruct c as [|[|c]]; simpl in H; [| |destruct c; discriminate];
     inversion H; subst; simpl; repeat split; first [discriminate|reflexivity].
 Qed.
+
+(* ------------------------------------------------------------------ *)
+(* on_wake drains the whole hand-over queue                            *)
+
+(* When on_wake leaves its while loop and releases handle->mtx, the hand-over queue is empty
+   and no context is left in the "queued" position: every context that was queued when the
+   wake-up was handled (however many muggle_socket_evloop_add_ctx calls coalesced into this
+   one wake-up) has been registered (and is announced) or, if its registration failed,
+   released.  Holds for every history. *)
+Theorem queue_drained_per_wake h s' r :
+  step (run init h) ETauWakeUnlock = Some (s', r) ->
+  queue s' = [] /\ pc s' = PWakeCb /\
+  forall c x, nth_error (ctxs s') c = Some x -> k_loc x <> LQueue.
+Proof.
+  intros H. destruct (run_J h init init_J) as [HJ _]. set (s := run init h) in *.
+  unfold step in H. destruct (spc_eqb (pc s) PWake); [|discriminate].
+  destruct (queue s) eqn:Eq; [|discriminate]. inversion H; subst; clear H. simpl.
+  split; [exact Eq|]. split; [reflexivity|]. intros c x Hx Hl.
+  destruct (HJ c x Hx) as (A & _ & _). apply (A Hl).
+Qed.
+
+(* on_wake cannot end (unlock, cb_wake) while a context is queued, and the only thing it can do
+   with the queue is take its head: registration is in queue order *)
+Lemma wake_cannot_end_with_queued s c q :
+  pc s = PWake -> queue s = c :: q ->
+  step s ETauWakeUnlock = None /\ step s EWake = None /\
+  forall d ok, d <> c -> step s (EReg d ok) = None.
+Proof.
+  intros Hp Hq. unfold step. rewrite Hp, Hq. simpl. repeat split.
+  intros d ok Ne. destruct (Nat.eqb_spec d c); [contradiction|reflexivity].
+Qed.
+
+(* three hand-overs coalesce into one wake-up: all three are registered and announced in
+   queue order before on_wake can end *)
+Example wake_drains_burst :
+  let h := [EHalloc KConn 1; EHalloc KConn 2; EHalloc KConn 3; EHand 0; EHand 1; EHand 2;
+            ETauWakeBegin; EReg 0 true; EAddctx 0; ETauWakeUnlock (* not enabled: skipped *);
+            EReg 2 true (* not the head: skipped *); EReg 1 true; EAddctx 1; EReg 2 false; ETauRel (* count 0: not silent *);
+            ERelease 2; EFdclose 2; EFree 2; ETauWakeUnlock; EWake] in
+  let s := run init h in
+  pc s = PIdle /\ queue s = [] /\ reg s = [0; 1] /\
+  map (fun x => (k_ann x, k_nrel x, k_nfree x)) (ctxs s) = [(1, 0, 0); (1, 0, 0); (0, 1, 1)].
+Proof. vm_compute. repeat split; reflexivity. Qed.
